@@ -677,6 +677,11 @@ theorem bp_marshal_kinds (k : K) (h : bpSrc k = .marshal) :
       (if flag = 0 then setW st (writeOnce st.w st.val) else (.mar flag false, st)) := by
   cases k <;> simp [bpSrc] at h <;> simp [Live, feat, bpDispatch]
 
+theorem bp_errtext_kinds (k : K) (h : bpSrc k = .errText) :
+    Live (feat k) ∧ ∀ flag aux st, bpDispatch (feat k) flag aux st =
+      setW st (writeOnce st.w (ePre ++ st.val)) := by
+  cases k <;> simp [bpSrc] at h <;> simp [Live, feat, bpDispatch]
+
 theorem bp_json_kinds (k : K) (h : bpSrc k = .json) :
     Live (feat k) ∧ ∀ flag aux st, bpDispatch (feat k) flag aux st = jsonWrite aux st := by
   cases k <;> simp [bpSrc] at h <;> simp [Live, feat, bpDispatch, Ty.base]
@@ -693,6 +698,10 @@ theorem tp_bytes_kinds (k : K) (h : tpSrc k = .bytes) :
 theorem tp_marshal_kinds (k : K) (h : tpSrc k = .marshal) :
     ∀ flag aux st, tpInner (feat k) flag aux st =
       (if flag = 0 then setW st (writeOnce st.w st.val) else (.mar flag true, st)) := by
+  cases k <;> simp [tpSrc] at h <;> simp [feat, tpInner]
+
+theorem tp_errtext_kinds (k : K) (h : tpSrc k = .errText) :
+    ∀ flag aux st, tpInner (feat k) flag aux st = setW st (writeOnce st.w (ePre ++ st.val)) := by
   cases k <;> simp [tpSrc] at h <;> simp [feat, tpInner]
 
 theorem tp_json_kinds (k : K) (h : tpSrc k = .json) :
@@ -806,6 +815,11 @@ theorem bp_core (c : Case) (rc rl wc : Nat) :
       show (if (c.flag == 0) = true then _ else _) = true
       have : (c.flag == 0) = false := by simpa using hf
       rw [this]; rfl
+  | errText =>
+    have ⟨hl, hd⟩ := bp_errtext_kinds c.kind hcls
+    have hi := bpInner_live (feat c.kind) c.flag c.aux (st0 c) hl
+    rw [hi.1, hi.2.1, hi.2.2.1, hd]
+    exact specWritten_writeOnce c (ePre ++ c.content) _ rc rl wc
   | json =>
     have ⟨hl, hd⟩ := bp_json_kinds c.kind hcls
     have hi := bpInner_live (feat c.kind) c.flag c.aux (st0 c) hl
@@ -843,6 +857,9 @@ theorem tp_core (c : Case) (rc rl wc : Nat) :
       show (if (c.flag == 0) = true then _ else _) = true
       have : (c.flag == 0) = false := by simpa using hf
       rw [this]; rfl
+  | errText =>
+    rw [tp_errtext_kinds c.kind hcls]
+    exact specWritten_writeOnce c (ePre ++ c.content) _ rc rl wc
   | json =>
     rw [tp_json_kinds c.kind hcls]
     unfold jsonWrite specSrc
